@@ -1,6 +1,9 @@
 package main
 
-import "bytes"
+import (
+	"bytes"
+	"crypto/sha256"
+)
 
 // ReadOut is the observable outcome of one parser entry point.
 type ReadOut struct {
@@ -38,6 +41,18 @@ func (o ReadOut) res() Res {
 	return r
 }
 
+// addSha: independent SHA-256 (standard library) of the first L input bytes, L supplied by the specification.
+func addSha(r Res, a Args) {
+	if a.Has("L") {
+		in := a.Bytes("in")
+		l := a.Int("L")
+		if l >= 0 && l <= len(in) {
+			h := sha256.Sum256(in[:l])
+			r["sha"] = ints(h[:])
+		}
+	}
+}
+
 func errStr(e error) string {
 	if e == nil {
 		return ""
@@ -62,7 +77,27 @@ func init() {
 			s.Vals[h] = o.Val
 			s.Bufs[h] = in
 		}
-		return o.res()
+		r := o.res()
+		addSha(r, a)
+		return r
+	})
+	// Twins: several entry points on (private copies of) the same input.
+	register("Twins", func(s *Session, a Args) Res {
+		var results []any
+		for _, f := range a.List("fns") {
+			fn, _ := f.(string)
+			rd, ok := readers[fn]
+			if !ok {
+				return Res{"unknown_fn": true}
+			}
+			in := append([]byte{}, a.Bytes("in")...)
+			r := rd(in, a).res()
+			r["fn"] = fn
+			results = append(results, r)
+		}
+		r := Res{"results": results}
+		addSha(r, a)
+		return r
 	})
 	// Sweep: the same entry point on every prefix in[:k], k = 0..len(in) (all cut points),
 	// and on in ++ each tail; results are logged as tuples and run-length compressed on equal tuples.
